@@ -38,37 +38,55 @@ StartOf(t) == /\ g = GraphOf(t) /\ entries = S(Traces[t].entries) /\ mode = Trac
               /\ phase = "validate" /\ reach = {} /\ rank = <<>> /\ up = {} /\ rankUp = <<>> /\ step = 0
 ResetFor(t) == /\ g' = GraphOf(t) /\ entries' = S(Traces[t].entries) /\ mode' = Traces[t].mode
                /\ phase' = "validate" /\ reach' = {} /\ rank' = <<>> /\ up' = {} /\ rankUp' = <<>> /\ step' = 0
-TInit == /\ tid = 1 /\ l = 1 /\ seen = {} /\ called = {} /\ TLCSet(1, 0) /\ TLCSet(2, <<0, 0>>)
+TInit == /\ tid = 1 /\ l = 1 /\ seen = {} /\ called = {} /\ TLCSet(1, 0) /\ TLCSet(2, <<0, 0>>) /\ TLCSet(3, <<>>)
          /\ StartOf(1)
 
-IsEvent(e) == tid <= N /\ l <= Len(Ev) /\ Ev[l].ev = e /\ l' = l + 1 /\ tid' = tid
+AtEvent(e) == tid <= N /\ l <= Len(Ev) /\ Ev[l].ev = e
+Advance == l' = l + 1 /\ tid' = tid
+NextTraceState == /\ tid' = tid + 1 /\ l' = 1 /\ seen' = {} /\ called' = {}
+                  /\ IF tid + 1 <= N THEN ResetFor(tid + 1) ELSE UNCHANGED vars
+\* Verdicts are total in ONE run: an event whose verdict predicate is false is recorded in register 3 as <<tid, l>> and the
+\* batch continues with the next trace.  Register 1 keeps the PagerTrace meaning: number of traces accepted before the
+\* first rejection (so  TLCGet(1) = N  iff every trace was accepted).
+Reject == TLCSet(3, Append(TLCGet(3), <<tid, l>>)) /\ NextTraceState
+Accept == TLCSet(1, IF TLCGet(3) = <<>> THEN tid ELSE TLCGet(1)) /\ NextTraceState
 \* an observation made on the finished library: judged once the traversal of the specification has terminated
-Obs(kind) == phase = "closed" /\ kind \notin seen /\ seen' = seen \cup {kind} /\ UNCHANGED <<vars, called>>
+Observed(kind) == seen' = seen \cup {kind} /\ UNCHANGED <<vars, called>> /\ Advance
 
-TValidate == IsEvent("validate") /\ Validate /\ (Ev[l].ok <=> phase' # "failed") /\ UNCHANGED <<seen, called>>
+TValidate == /\ AtEvent("validate") /\ phase = "validate"
+             /\ IF Ev[l].ok <=> ~Bad THEN Validate /\ Advance /\ UNCHANGED <<seen, called>> ELSE Reject
+\* the specification's own traversal; no event is consumed
 TStep == tid <= N /\ (StepReach \/ StepUp) /\ UNCHANGED <<tid, l, seen, called>>
-TSelective == /\ IsEvent("selective") /\ Obs("selective") /\ Sel = "prune" /\ seen = {}
-              /\ TypesOK(S(Ev[l].types)) /\ S(Ev[l].rpcs) = KeptRpcs /\ SvcsOK(S(Ev[l].svcs))
-TBuilt == /\ IsEvent("built") /\ Obs("built") /\ (Sel = "prune" <=> "selective" \in seen)
-          /\ TypesOK(S(Ev[l].types)) /\ RpcsOK(S(Ev[l].public), S(Ev[l].internal)) /\ S(Ev[l].underscored) = Internal
-          /\ SvcsOK(S(Ev[l].svcs)) /\ ClientsOK(S(Ev[l].clients))
-TTypes == IsEvent("types") /\ Obs("types") /\ "built" \in seen /\ TypesOK(S(Ev[l].types))
-TRpcs == /\ IsEvent("rpcs") /\ Obs("rpcs") /\ "built" \in seen
-         /\ S(Ev[l].public) = Public \cap FullSync /\ S(Ev[l].internal) = Internal \cap FullSync
-         /\ S(Ev[l].publicAsync) = Public \cap FullAsync /\ S(Ev[l].internalAsync) = Internal \cap FullAsync
-TClients == IsEvent("clients") /\ Obs("clients") /\ "built" \in seen /\ SvcsOK(S(Ev[l].svcs)) /\ ClientsOK(S(Ev[l].clients))
-TUsable == /\ IsEvent("usable") /\ {"built", "types", "rpcs", "clients"} \subseteq seen
-           /\ S(Ev[l].bad) = {} /\ Publish /\ UNCHANGED <<seen, called>>
-TCall == /\ IsEvent("call") /\ phase = "done" /\ Ev[l].rpc \in KeptRpcs \ called /\ Ev[l].same
-         /\ called' = called \cup {Ev[l].rpc} /\ UNCHANGED <<vars, seen>>
-TNextTrace == /\ tid <= N /\ l = Len(Ev) + 1
-              /\ \/ phase = "failed"
-                 \/ phase = "done" /\ called = KeptRpcs \cap FullSync
-              /\ TLCSet(1, tid)
-              /\ tid' = tid + 1 /\ l' = 1 /\ seen' = {} /\ called' = {}
-              /\ IF tid + 1 <= N THEN ResetFor(tid + 1) ELSE UNCHANGED vars
+TSelective == /\ AtEvent("selective") /\ phase = "closed"
+              /\ IF /\ Sel = "prune" /\ seen = {}
+                    /\ TypesOK(S(Ev[l].types)) /\ S(Ev[l].rpcs) = KeptRpcs /\ SvcsOK(S(Ev[l].svcs))
+                 THEN Observed("selective") ELSE Reject
+TBuilt == /\ AtEvent("built") /\ phase = "closed"
+          /\ IF /\ "built" \notin seen /\ (Sel = "prune" <=> "selective" \in seen)
+                /\ TypesOK(S(Ev[l].types)) /\ RpcsOK(S(Ev[l].public), S(Ev[l].internal)) /\ S(Ev[l].underscored) = Internal
+                /\ SvcsOK(S(Ev[l].svcs)) /\ ClientsOK(S(Ev[l].clients))
+             THEN Observed("built") ELSE Reject
+TTypes == /\ AtEvent("types") /\ phase = "closed"
+          /\ IF "built" \in seen /\ "types" \notin seen /\ TypesOK(S(Ev[l].types)) THEN Observed("types") ELSE Reject
+TRpcs == /\ AtEvent("rpcs") /\ phase = "closed"
+         /\ IF /\ "built" \in seen /\ "rpcs" \notin seen
+               /\ S(Ev[l].public) = Public \cap FullSync /\ S(Ev[l].internal) = Internal \cap FullSync
+               /\ S(Ev[l].publicAsync) = Public \cap FullAsync /\ S(Ev[l].internalAsync) = Internal \cap FullAsync
+            THEN Observed("rpcs") ELSE Reject
+TClients == /\ AtEvent("clients") /\ phase = "closed"
+            /\ IF "built" \in seen /\ "clients" \notin seen /\ SvcsOK(S(Ev[l].svcs)) /\ ClientsOK(S(Ev[l].clients))
+               THEN Observed("clients") ELSE Reject
+TUsable == /\ AtEvent("usable") /\ phase = "closed"
+           /\ IF {"built", "types", "rpcs", "clients"} \subseteq seen /\ S(Ev[l].bad) = {}
+              THEN Publish /\ Advance /\ UNCHANGED <<seen, called>> ELSE Reject
+TCall == /\ AtEvent("call") /\ phase \in {"closed", "done"}
+         /\ IF phase = "done" /\ Ev[l].rpc \in KeptRpcs \ called /\ Ev[l].same
+            THEN called' = called \cup {Ev[l].rpc} /\ UNCHANGED <<vars, seen>> /\ Advance ELSE Reject
+TNextTrace == /\ tid <= N /\ l = Len(Ev) + 1 /\ phase \notin {"reach", "up"}
+              /\ IF phase = "failed" \/ (phase = "done" /\ called = KeptRpcs \cap FullSync) THEN Accept ELSE Reject
 TNext == TValidate \/ TStep \/ TSelective \/ TBuilt \/ TTypes \/ TRpcs \/ TClients \/ TUsable \/ TCall \/ TNextTrace
 TSpec == TInit /\ [][TNext]_tvars
 Progress == TLCSet(2, <<tid, l>>)          \* CONSTRAINT: remembers how far the batch got (workers 1)
-Accepted == PrintT(<<"ACCEPTED", TLCGet(1)>>) /\ PrintT(<<"REACHED", TLCGet(2)>>) /\ TLCGet(1) = N
+Accepted == /\ PrintT(<<"ACCEPTED", TLCGet(1)>>) /\ PrintT(<<"REACHED", TLCGet(2)>>) /\ PrintT(<<"REJECTED", TLCGet(3)>>)
+            /\ TLCGet(1) = N
 =============================================================================
